@@ -101,7 +101,7 @@ func (e *fnEnc) runTop() {
 	for _, b := range e.order {
 		e.block(b, "true")
 	}
-	if e.contract != nil {
+	if e.contract != nil && len(e.contract.Panics) == 0 {
 		var gs []string
 		for _, r := range e.rets {
 			gs = append(gs, r.guard)
